@@ -366,8 +366,75 @@ def handleStrategy (j : Json) : Except String Verdict := do
   | [], (sig, why) :: _ => return { agree := false, spec := [("C09", "pass"), ("C16", c16v)], sig, tags, why }
   | [], [] => return { agree := true, spec := [("C09", "pass"), ("C16", c16v)], tags }
 
+/-- traced schemas (`from_type` of a type description, `from_samples` of a sample collection) through the JSON form.
+Correspondence: the model's printer on the traced fields writes the crate's JSON, the model's reader on that JSON is what the
+crate reads back.  Specification (C09, "for all schemas the crate can trace"): a traced schema survives `to_value` /
+`from_value` unchanged.  Tie to the theorems `C09_from_type_in_domain` / `C09_from_samples_in_domain`: the traced fields lie
+in `SchemaOK`, except for the one documented shape — a never-reached position traced as a non-nullable `Null` under
+`allow_null_fields`, from samples only (`C09_unseen_position_outside`, known finding `C09-traced-unseen-null`). -/
+def handleTraced (j : Json) : Except String Verdict := do
+  let esc ← escOf j
+  let allowNull := ((← getObj j "opts").getObjValAs? Bool "allow_null_fields").toOption.getD false
+  let hasOw := match (← getObj j "opts").getObjVal? "overwrites" with
+    | .ok (.arr a) => !a.isEmpty
+    | _ => false
+  let mut tags : List String := []
+  let mut problems : List (String × String) := []
+  let mut specFail : List (String × String) := []
+  let mut outcomes : List Json := []
+  let mut anyOk := false
+  let mut na := false
+  for (key, what) in [("type", "from_type"), ("samples_out", "from_samples")] do
+    match j.getObjVal? key with
+    | .error _ => pure ()
+    | .ok o =>
+      outcomes := o :: outcomes
+      tags := tags ++ [s!"{what}-{implCls o}"]
+      if implCls o != "ok" then continue
+      anyOk := true
+      let v ← o.getObjVal? "ok"
+      let fs ← fieldsOfJson (← v.getObjVal? "fields")
+      let ij ← v.getObjVal? "json"
+      let back ← v.getObjVal? "back"
+      outcomes := back :: outcomes
+      tags := tags ++ (fs.map fun f => f.dataType.ctor)
+      let inDomain := fs.all schemaOK
+      let blame := fs.findSome? blameField
+      -- correspondence: printer and reader of the model on the traced schema
+      match printSchema esc fs with
+      | .ok mj =>
+        if ofJVal mj != ij then
+          problems := problems ++ [(s!"C09/traced/{what}/print/{firstCtor fs}", s!"to_value of the traced schema: model wrote {(ofJVal mj).compress}, implementation {ij.compress}")]
+      | .error _ => problems := problems ++ [(s!"C09/traced/{what}/print/class", "the model cannot write the traced schema")]
+      if let some w ← diffOutcome s!"{what}: from_value(to_value(schema))" (parseSchema (toJVal ij)) back then
+        problems := problems ++ [(s!"C09/traced/{what}/read/{firstCtor fs}", w)]
+      -- the theorems: traced fields lie in the domain
+      if !inDomain && !hasOw && !(what == "from_samples" && allowNull && blame == some "Null/non-nullable") then
+        problems := problems ++ [(s!"C09/traced/{what}/outside-domain/{blame.getD "?"}", s!"{what} returned a schema outside SchemaOK ({blame.getD "?"}): contradicts C09_{what}_in_domain")]
+      -- specification: the traced schema survives the JSON form
+      let (bcls, bfs) ← implFields back
+      let eq := (v.getObjValAs? Bool "eq").toOption
+      let teq := (v.getObjValAs? Bool "text_eq").toOption
+      if bcls == "ok" && bfs == fs && eq == some true && teq == some true then tags := tags ++ ["traced-survives"]
+      else if inDomain || !hasOw then
+        let b := blame.getD (firstCtor fs)
+        specFail := specFail ++ [(s!"C09/traced/{what}/json-rt/{b}", s!"{what}: the traced schema does not survive to_value / from_value unchanged ({bcls}, eq {eq}, text {teq}; {b})")]
+      else
+        -- an overwrite outside the JSON domain (sorted map, sparse union): the known findings of the `fields` cases
+        na := true
+        tags := tags ++ [s!"outside:{blame.getD "?"}"]
+  if !anyOk then tags := tags ++ ["traced-none"]
+  let c16v := c16 outcomes
+  if c16v == "fail" then specFail := specFail ++ [("C09/panic", "a schema operation panicked")]
+  tags := tags.eraseDups
+  match specFail, problems with
+  | (sig, why) :: _, _ => return { agree := problems.isEmpty, spec := [("C09", "fail"), ("C16", c16v)], sig, tags, why }
+  | [], (sig, why) :: _ => return { agree := false, spec := [("C09", "pass"), ("C16", c16v)], sig, tags, why }
+  | [], [] => return { agree := true, spec := [("C09", if !anyOk || na then "na" else "pass"), ("C16", c16v)], tags }
+
 def handle (j : Json) : Except String Verdict := do
   match (← getStr j "kind") with
+  | "traced" => handleTraced j
   | "spell" => handleSpell j
   | "strategy" => handleStrategy j
   | "json" => handleJson j
